@@ -19,6 +19,7 @@ Core Lean only, executable.
 -/
 import IrohModel.Generated.C39
 import IrohModel.Common.Pkarr
+import IrohModel.Common.LTS
 
 namespace IrohModel.C39
 open IrohModel.Pkarr
@@ -97,6 +98,43 @@ def runDb (ret : Nat) (db : Db) (evs : List Ev) : Db := evs.foldl (stepDb ret) d
 of the snapshot's index). -/
 def scan (ret now : Nat) (T : Tables) (cands : List (Nat × Nat)) : List (Nat × Nat) :=
   cands.filter fun (ts, k) => T.index ts k && decide (ts < cutoff now ret)
+
+/-! ### The eviction pass as separate steps, interleaved with publishes
+
+`evict_task_inner` takes a `Snapshot` of the update-time index, reads the entries below the
+cut-off and sends one `CheckExpired { time, key }` per entry; the actor handles each of them
+later, with the clock value and the *stored packet* of that later moment, and publishes for
+the same key can be handled in between.  (A snapshot sees committed data only; this LTS is
+over one table state, i.e. snapshots are taken when no batch is open.) -/
+
+structure EState where
+  tables : Tables
+  /-- `CheckExpired` messages sent by eviction passes and not yet handled -/
+  queue : List (Nat × Nat)
+  /-- the clock (µs); it never goes back -/
+  clock : Nat
+
+inductive ELabel where
+  /-- time passes -/
+  | tick (d : Nat)
+  /-- an eviction pass reads a snapshot (whose index entries are `cands`) and enqueues its messages -/
+  | snapshot (cands : List (Nat × Nat))
+  /-- the actor handles the oldest queued `CheckExpired` -/
+  | check
+  /-- the actor handles an upsert -/
+  | publish (p : Packet)
+
+def estep (ret : Nat) (s : EState) : ELabel → Option EState
+  | .tick d => some { s with clock := s.clock + d }
+  | .snapshot cands => some { s with queue := s.queue ++ scan ret s.clock s.tables cands }
+  | .check =>
+    match s.queue with
+    | [] => none
+    | (t, k) :: q => some { s with tables := checkExpired ret s.clock s.tables t k, queue := q }
+  | .publish p => some { s with tables := (upsert s.tables p).1 }
+
+def esys (ret : Nat) (T : Tables) (clock : Nat) : LTS.System EState ELabel :=
+  { init := ⟨T, [], clock⟩, step := estep ret }
 
 /-! ### Byte level -/
 
